@@ -202,7 +202,12 @@ func runC32(rc *sk.RunCtx) {
 	}
 	// the peer's known address list changes while the handshake is pending (a reload adds an unreachable second
 	// static address): the attempt counter and the backoff must carry on
+	lhTriggers := false
 	if tp.Chance(1, 3) {
+		// in half of these runs the change comes with what a lighthouse answer brings: a trigger for the handshake
+		// manager to try the new addresses at once. A triggered attempt is an attempt like any other (it counts
+		// against handshakes.retries); the gap rules, stated for timer-driven retries, are not applied in such runs.
+		lhTriggers = tp.Chance(1, 2)
 		nch := 1 + tp.Choose(3)
 		for c := 0; c < nch; c++ {
 			at := t0 + time.Duration(tp.Choose(int(total/time.Millisecond)+1))*time.Millisecond
@@ -220,6 +225,13 @@ func runC32(rc *sk.RunCtx) {
 				}
 				A.spec = &spec
 				rc.Count("op.reload_static_addresses", 1)
+				if lhTriggers {
+					select {
+					case A.f.handshakeManager.trigger <- addrB:
+						rc.Count("op.lighthouse_trigger", 1)
+					default:
+					}
+				}
 			})
 		}
 	}
@@ -236,6 +248,25 @@ func runC32(rc *sk.RunCtx) {
 			}
 		}
 		return false
+	}
+	if lhTriggers {
+		// Triggered attempts use up attempts ahead of the timer schedule, so the handshake may be abandoned (and a new
+		// one started by a later packet) earlier than the rules below assume. What still holds, per handshake — one
+		// handshake = one first-message body —: never more transmissions to the peer than handshakes.retries.
+		per := map[string]int{}
+		for _, t := range txs {
+			per[string(t.data)]++
+		}
+		for _, n := range per {
+			if n > retries {
+				rc.Fail("too-many-attempts", "retries=%d but one handshake's first message was transmitted %d times (lighthouse-triggered attempts count as attempts)", retries, n)
+				return
+			}
+		}
+		rc.Count("probe.triggered_runs", 1)
+		rc.TraceQuiet(fmt.Sprintf("trig I=%v r=%d tx=%d", tryI, retries, len(txs)))
+		rc.Nontrivial()
+		return
 	}
 	// (a) retransmissions: identical bytes, linearly growing gaps
 	for i := 1; i < len(txs); i++ {
